@@ -228,6 +228,12 @@ def run_case(case):
     base_b, scs_b, comp_b, idx_b, ccs_b = compile_all(case["vseed"] + 977)
     if idx_b != idx:
         raise Violation("recompile-same-circuits", f"{feat}:compiled-set-differs", f"{idx} vs {idx_b}")
+    # the fresh instance is used once at its own initial values before anything is loaded into it ("whatever its
+    # fresh initial values"): a pure evaluation, so that anything cached by a forward pass would go stale below
+    try:
+        _outputs(ccs_b, scopes, X)
+    except Exception:  # pylint: disable=broad-except
+        pass  # priming only; evaluation errors are reported by the compared evaluations
     for blobs, ys in snaps:
         _load(ccs_b, blobs, f"{feat}:fresh-instance")
         with sut("evaluate"):
